@@ -333,11 +333,19 @@ def r4_reauth(ctx, prog):
         ctx.analysed(f)
         key = handle_objects(f)[param_name(f, 2)][0][0]
         mechs = macros(prog)
-        o = Outcomes(f, prog, cenv={re.compile(r'getBooleanValue\(%s,CKA_ALWAYS_AUTHENTICATE,\w+\)' % key): 1, param_name(f, 1) + '.mechanism': mechs['CKM_RSA_PKCS']}, record_calls={'setReAuthentication', 'setOpType'})
-        o.CAP = 48
-        o.go()
-        r.paths += len(o.outcomes)
-        started = [oc for oc in o.outcomes if any(e[1] == 'setOpType' and e[2][1] != 'SESSION_OP_NONE' for e in oc['events'])]
+        def starting(fn):
+            o = Outcomes(fn, prog, cenv={re.compile(r'getBooleanValue\(%s,CKA_ALWAYS_AUTHENTICATE,\w+\)' % key): 1, param_name(f, 1) + '.mechanism': mechs['CKM_RSA_PKCS']}, record_calls={'setReAuthentication', 'setOpType'})
+            o.CAP = 48
+            o.go()
+            r.paths += len(o.outcomes)
+            return [oc for oc in o.outcomes if any(e[1] == 'setOpType' and e[2][1] != 'SESSION_OP_NONE' for e in oc['events'])]
+        started = starting(f)
+        if not started:
+            # the block that installs the operation may live in a file-local void helper: the same statements, analysed in place
+            from engine.facts import inline_void_helpers
+            g = inline_void_helpers(prog, only=f)
+            if g is not None:
+                started = starting(g)
         bad = [oc for oc in started if not any(e[1] == 'setReAuthentication' and e[2][1] in ('true', '1') for e in oc['events'])]
         site = 'flag raised at Init'
         if not started:
